@@ -48,6 +48,11 @@ def run(chk):
                                   20 if quick else 30, 100000 if quick else 400000, tree.oracle, state_of=strip) and closed
         closed = vlib.closure(chk, tree.NAME, c_exe, m_exe, [], tree.map_alphabet(4 if quick else 5), 14, 100000,
                               tree.oracle, state_of=lambda l: tree.strip_payload(l.split("|", 1)[1]) if "|" in l else l) and closed
+        # states that distinguish the stored key / value pointers (one key object is the NULL pointer)
+        closed = vlib.closure(chk, tree.NAME, c_exe, m_exe, [], tree.map_alphabet(3 if quick else 4), 14, 400000,
+                              tree.oracle, state_of=lambda l: tree.strip_ids(l.split("|", 1)[1]) if "|" in l else l) and closed
+        if chk.oracle_failures:
+            vlib.shrink_failures(chk, tree, c_exe, tree.oracle, None)
     # --- heap
     c_exe, m_exe = vlib.prepare_area(chk, heap, leanchecker=True)
     if c_exe:
